@@ -80,7 +80,7 @@ impl StyleSheetOutput {
         }
         self.prev_ser_type = next_ser_type;
         let output_start_pos = self.s.len();
-        token.to_css(&mut self.s).unwrap();
+        write_token_css(&token, &mut self.s);
         let name = src.map(|x| {
             let s = x.to_css_string();
             self.source_map.add_name(&s)
@@ -104,5 +104,58 @@ impl StyleSheetOutput {
         } else {
             self.append_token(token, src);
         }
+    }
+}
+
+/// Write a token as CSS text.
+///
+/// `cssparser` prints every numeric value through a float printer that keeps six significant
+/// digits, which changes integers of seven or more digits; those are written exactly here.
+fn write_token_css(token: &Token, dest: &mut String) {
+    let (has_sign, int_value, value) = match token {
+        Token::Number {
+            has_sign,
+            int_value: Some(i),
+            value,
+        }
+        | Token::Dimension {
+            has_sign,
+            int_value: Some(i),
+            value,
+            ..
+        } => (*has_sign, *i, *value),
+        Token::Percentage {
+            has_sign,
+            int_value: Some(i),
+            unit_value,
+        } => (*has_sign, *i, *unit_value * 100.),
+        _ => {
+            token.to_css(dest).unwrap();
+            return;
+        }
+    };
+    // (a synthesized token may carry an `int_value` that saturated: trust it only if it agrees)
+    let agrees = (int_value as f32 - value).abs() <= 1e-6 * value.abs();
+    if int_value.unsigned_abs() < 1_000_000 || !agrees {
+        token.to_css(dest).unwrap();
+        return;
+    }
+    if has_sign && int_value > 0 {
+        dest.push('+');
+    }
+    write!(dest, "{}", int_value).unwrap();
+    match token {
+        Token::Percentage { .. } => dest.push('%'),
+        Token::Dimension { unit, .. } => {
+            // let `cssparser` escape the unit: print `0<unit>` and drop the zero
+            let zero = Token::Dimension {
+                has_sign: false,
+                value: 0.,
+                int_value: Some(0),
+                unit: unit.clone(),
+            };
+            dest.push_str(&zero.to_css_string()[1..]);
+        }
+        _ => {}
     }
 }
